@@ -84,6 +84,8 @@ def op_table(rng, da):
         "spi_grouped": lambda d: d.hdc.algo.spi(groups=groups),
         "mean_grp": lambda d: d.hdc.algo.mean_grp(igroups),
         "rolling_sum": lambda d: d.hdc.rolling.sum(3),
+        "rolling_sum_f64": lambda d: d.hdc.rolling.sum(2, dtype="float64"),
+        "spi_f32": lambda d: d.hdc.algo.spi(dtype="float32"),
         "autocorr": lambda d: d.hdc.algo.autocorr(),
         "mktrend": lambda d: d.hdc.algo.mktrend(),
         "lroo": lambda d: binary(d).hdc.algo.lroo(),
@@ -231,14 +233,15 @@ def shard_sweep(spec, R):
                 R.count("eagerly_evaluated_on_dask_input")
             if sched != "synchronous" and len(delayer.log) > 1:
                 completion_orders.setdefault(name, set()).add(tuple(t for _, t in delayer.log))
+            mism = [(k, dt, as_vars(got)[k].dtype) for k, dt in declared.items() if dt != as_vars(got)[k].dtype]
+            if mism:
+                k, dt, cdt = mism[0]
+                R.violation(f"C12:declared-dtype:{name}", f"{name}: the lazy result declares dtype {dt} but computes {cdt} (variable {k!r}; eager dtype {as_vars(eager[o])[k].dtype})", case)
+                continue
             msg = equal_results(eager[o], got, f"{name} eager vs dask (order {o}, chunks {cname}, scheduler {sched})")
             if msg:
                 R.violation(f"C12:lazy-vs-eager:{name}", msg, case)
                 continue
-            for k, dt in declared.items():
-                if dt != as_vars(got)[k].dtype:
-                    R.violation(f"C12:declared-dtype:{name}", f"{name}: the lazy result declares dtype {dt} but computes {as_vars(got)[k].dtype} (variable {k!r})", case)
-                    break
         # a chunked time axis: eager result or an error
         if name not in ("croo",):
             d2 = da.chunk({"time": 5, "y": -1, "x": -1})
@@ -495,7 +498,7 @@ def shard_firstcall(spec, R):
             R.violation("C12:race-result", msg, {"op": name})
 
 
-ALL_OPS = ["whits_s", "whits_sg_p", "whitsvc", "whitsvc_p", "whitsvc_lc", "whitswcv", "whitswcv_p", "whitint", "spi", "spi_grouped", "mean_grp", "rolling_sum",
+ALL_OPS = ["whits_s", "whits_sg_p", "whitsvc", "whitsvc_p", "whitsvc_lc", "whitswcv", "whitswcv_p", "whitint", "spi", "spi_grouped", "spi_f32", "mean_grp", "rolling_sum", "rolling_sum_f64",
            "autocorr", "mktrend", "lroo", "croo", "zonal_mean", "zonal_mean_lazy_zones"]
 LAZY_KERNELS = ["ws2dgu", "ws2dpgu", "ws2doptv", "ws2doptvp", "ws2doptvplc", "ws2dwcv", "ws2dwcvp", "gammastd_grp", "_mann_kendall_trend_gu_nd", "_mann_kendall_trend_gu",
                 "mean_grp", "rolling_sum", "lroo", "tinterpolate", "autocorr", "autocorr_tyx", "do_mean", "ws2doptvplc_tyx"]
